@@ -4,7 +4,7 @@ from ..engines import solver
 from .C06 import describe, COMPONENTS
 
 PROP = "C07"
-BUDGET = {"quick": 500, "thorough": 14000}
+BUDGET = {"quick": 1200, "thorough": 25000}
 ALARM_S = 1200
 RULE = ("as C06 plus target_state subsets and integrator methods; sensitivity, gradient, sensitivityIV and the columns of "
         "jac compared with Richardson-extrapolated central differences of PyGOM's own cost / costIV / residual in the free "
